@@ -40,8 +40,8 @@ EXHAUSTIVE_SCOPE = {'quick': 'array matrix (dtype x rank x layout x length) exha
 FLOORS = {'quick': {'evaluations': 15000, 'distinct_nontrivial': 3000},
           'thorough': {'evaluations': 500000, 'distinct_nontrivial': 100000}}
 ASSUMPTIONS = ['not representable by the formats themselves, hence not generated: top-level str keys that are integer '
-               'literals (nested ones are kept as strings and are generated), strings that int()/float() accept, bool/None table cells, strings with line '
-               'breaks, params strings with quotes/backslashes, NaN/inf in params, int keys inside nested '
+               'literals (nested ones are kept as strings and are generated), strings that int()/float() accept, bool/None table cells, strings with carriage '
+               'returns, params strings with quotes/backslashes, NaN/inf in params, int keys inside nested '
                'dictionaries, tuples in JSON (a parameter file keeps tuples: generated there)']
 NSHARDS = 16
 DTYPES = ['bool', 'int8', 'uint8', 'int16', 'uint16', 'int32', 'uint32', 'int64', 'uint64', 'float16',
@@ -247,6 +247,8 @@ def _tsv(case, ctx, d):
     from phylib.utils._misc import write_tsv, read_tsv
     rng = np.random.default_rng(case['seed'])
     ext = ['.tsv', '.csv'][int(rng.integers(0, 2))]
+    if case['seed'][2] % 7 == 3:
+        ext = ['.CSV', '.TSV', '.txt', ''][case['seed'][2] // 7 % 4]       # other spellings: written with commas, read by looking at the header
     nf = int(rng.integers(2, 6))
     fields = [FIELDS[i] for i in rng.permutation(len(FIELDS))[:nf]]
     rows = []
@@ -259,6 +261,8 @@ def _tsv(case, ctx, d):
                 continue
             if rng.random() < 0.75:
                 row[f] = rand_cell(rng)
+                if isinstance(row[f], str) and case['seed'][2] % 5 == 1 and rng.random() < 0.4:
+                    row[f] = ['x\ny', 'p\n\nq', 'two\n\n\nlines', '\n'][int(rng.integers(0, 4))]       # line feeds (also empty lines) inside a cell
         rows.append(row)
     if long_:
         rows[-1][fields[-1]] = 'late'
